@@ -209,6 +209,8 @@ func impl(in hv.Val) hv.Val {
 			fr.WriteHeaders(bfe_http2.HeadersFrameParam{StreamID: uint32(hv.AsInt(l[1])), BlockFragment: hb.Bytes(), EndStream: true, EndHeaders: true})
 		case 6:
 			fr.WriteRSTStream(uint32(hv.AsInt(l[1])), bfe_http2.ErrCodeCancel)
+		case 8: // overflows the send window of an open stream: stream error, the server resets the stream
+			fr.WriteWindowUpdate(uint32(hv.AsInt(l[1])), 1<<31-1)
 		case 7:
 			s := cl.sc.VerifC37Sample()
 			if s.Closed || cl.dead || s.Queued >= limit {
@@ -367,8 +369,15 @@ func gen(r *hv.Rng, i int, tier string) (string, hv.Val) {
 		case c < 11:
 			if len(open) > 0 {
 				k := r.Intn(len(open))
-				ops = append(ops, hv.L{hv.I(6), hv.I(open[k])})
+				if r.Chance(1, 2) {
+					ops = append(ops, hv.L{hv.I(6), hv.I(open[k])})
+				} else {
+					ops = append(ops, hv.L{hv.I(8), hv.I(open[k])})
+					total++
+				}
 				open = append(open[:k], open[k+1:]...)
+			} else if r.Chance(1, 2) {
+				ops = append(ops, hv.L{hv.I(8), hv.I(unknownSid(r))}) // not open: ignored
 			}
 		default:
 			addFlood(r.Range(100, 600))
